@@ -94,6 +94,15 @@ def nvm_hostile(blob, variant):
         struct.pack_into("<I", b, ent + 6, csz + 4096)
     elif variant == "fn_length":        # main's code runs over the end of the code section
         struct.pack_into("<I", b, ent + 10, csz + 0x100000)
+    elif variant == "wrap_small":       # offset + length wraps to 4 in 32-bit arithmetic
+        struct.pack_into("<I", b, ent + 6, 0xFFFF0000)
+        struct.pack_into("<I", b, ent + 10, 0x00010004)
+    elif variant == "wrap_top":         # offset just below 2^32, length 0x20: the sum wraps to 0x10
+        struct.pack_into("<I", b, ent + 6, 0xFFFFFFF0)
+        struct.pack_into("<I", b, ent + 10, 0x20)
+    elif variant == "wrap_half":        # 2^31 + (2^31 + 8): the sum wraps to 8
+        struct.pack_into("<I", b, ent + 6, 0x80000000)
+        struct.pack_into("<I", b, ent + 10, 0x80000008)
     elif variant == "bad_opcode":       # first instruction of main replaced by an undefined opcode
         mo = struct.unpack_from("<I", b, ent + 6)[0]
         b[coff + mo] = 0xFF
@@ -102,7 +111,26 @@ def nvm_hostile(blob, variant):
     return nvm_fix_crc(bytes(b))
 
 
-HOSTILE_VARIANTS = ("fn_offset", "fn_length", "bad_opcode", "fn_offset_near")
+def nvm_hostile_proof(blob):
+    """Why the image is hostile, judged on the image itself with unbounded integers: "range" if some function entry
+    does not lie inside the code section, "opcode" if main starts with byte 0xFF, None otherwise."""
+    secs = {t: (off, sz) for t, off, sz in nvm_sections(blob)}
+    if NVM_SECTION_FUNCTIONS not in secs or NVM_SECTION_CODE not in secs or not nvm_crc_ok(blob):
+        return None
+    foff, fsz = secs[NVM_SECTION_FUNCTIONS]
+    coff, csz = secs[NVM_SECTION_CODE]
+    entry = struct.unpack_from("<I", blob, 12)[0]
+    for i in range(fsz // NVM_FUNCTION_ENTRY_SIZE):
+        o, ln = struct.unpack_from("<II", blob, foff + NVM_FUNCTION_ENTRY_SIZE * i + 6)
+        if o > csz or o + ln > csz:
+            return "range"
+    mo = struct.unpack_from("<I", blob, foff + NVM_FUNCTION_ENTRY_SIZE * entry + 6)[0]
+    if blob[coff + mo] == 0xFF:
+        return "opcode"
+    return None
+
+
+HOSTILE_VARIANTS = ("fn_offset", "wrap_small", "fn_length", "wrap_top", "bad_opcode", "wrap_half", "fn_offset_near")
 
 # ----------------------------------------------------------------- daemon life cycle
 
